@@ -24,7 +24,7 @@ func init() {
 // typeSwitchClassifier evaluates a `func(Node) bool` made of one type switch whose cases return boolean
 // combinations of atoms; returns kind → atoms-assignment-key → value.
 type classifier struct {
-	den *denum
+	den     *denum
 	fd      *ast.FuncDecl
 	cases   map[string]ast.Expr // type name → returned expression
 	dflt    bool
